@@ -14,9 +14,9 @@ import (
 
 // Loaded is the typed AST + SSA of the root packages of one check run.
 type Loaded struct {
-	Prog  *ssa.Program
-	Pkgs  []*packages.Package
-	SSA   []*ssa.Package
+	Prog   *ssa.Program
+	Pkgs   []*packages.Package
+	SSA    []*ssa.Package
 	ByPath map[string]*ssa.Package
 	All    map[*types.Package]*packages.Package
 }
@@ -71,7 +71,8 @@ func loadPackages(patterns []string) (*Loaded, error) {
 }
 
 // funcKey is the stable name contracts use for a function:
-//   pkgname.Func, (pkgname.T).Method, (*pkgname.T).Method, Outer$1 for closures.
+//
+//	pkgname.Func, (pkgname.T).Method, (*pkgname.T).Method, Outer$1 for closures.
 func funcKey(f *ssa.Function) string {
 	if f == nil {
 		return "<nil>"
